@@ -633,7 +633,7 @@ pub fn replay_depth(case: &serde_json::Value) -> bool {
 // C11
 // ---------------------------------------------------------------------------------------------
 
-fn class_lists_separator(seq: &[Node]) -> bool {
+pub fn class_lists_separator(seq: &[Node]) -> bool {
     seq.iter().any(|n| match &n.kind {
         Kind::Class { items, .. } => items.iter().any(|it| match it {
             syntax::ClassItem::Ch(c) => *c == '/',
